@@ -1,4 +1,4 @@
 SPECIFICATION Spec
-CONSTANTS L = 5  V = 4  SL = 4
+CONSTANTS L = 4  V = 3  SL = 4
 INVARIANTS DefaultMethods SegSumFormula
 CHECK_DEADLOCK FALSE
